@@ -1,5 +1,5 @@
 (** One entry point for the extracted model runner: component number, numbers in, numbers out. *)
-From Remoc Require Import Lib.Base Run.RunCodec Run.RunRobsVec Run.RunRobsDeque Run.RunRobsList Run.RunRobsMap Run.RunRobsSet Run.RunPort Run.RunBroadcast Run.RunIoChan.
+From Remoc Require Import Lib.Base Run.RunCodec Run.RunRobsVec Run.RunRobsDeque Run.RunRobsList Run.RunRobsMap Run.RunRobsSet Run.RunPort Run.RunBroadcast Run.RunIoChan Run.RunRobsLag.
 
 Definition run (comp : N) (inp : list N) : list N :=
   match comp with
@@ -10,6 +10,7 @@ Definition run (comp : N) (inp : list N) : list N :=
   | 133 => run_robs_list inp
   | 134 => run_robs_map inp
   | 135 => run_robs_set inp
+  | 14 => run_robs_lag inp
   | 16 => run_broadcast inp
   | 18 => run_io inp
   | _ => [97]
